@@ -90,6 +90,12 @@ def validObs (ctx : Ctx) (lim : Limits) (obs : List (Option Observation)) : List
     | some o => if validObservation ctx lim o then some o else none
     | none => none
 
+/-- libocr's part of the contract: an attributed observation (its length in bytes, what its bytes decode to) is handed
+to the plugin iff its length does not exceed the `MaxObservationLength` the plugin advertised — a message of exactly
+that length is handed over, one byte more and it never arrives (`none`: nothing `Outcome` could count) -/
+def delivered (maxLen : Nat) (msgs : List (Nat × Option Observation)) : List (Option Observation) :=
+  msgs.map fun m => if m.1 ≤ maxLen then m.2 else none
+
 /-! ### performables (performable.go) -/
 
 /-- one entry of the `resultCount` map -/
